@@ -46,7 +46,7 @@ func C13() *runner.Property {
 		CaseTimeout: 240e9,
 		Cases: func(tier string, seed int64) []runner.Case {
 			r := rng.New(uint64(seed) ^ 0xC13)
-			n := 40
+			n := 120
 			if tier == "thorough" {
 				n = 12000
 			}
